@@ -21,28 +21,32 @@ impl EventGen for ReuseElement {
         // of any vars set by this.
         reuse_element.eval_attributes(context)?;
 
+        // The reuse element's attributes are in scope only while instantiating;
+        // the scope must be removed again whether or not that succeeds, since
+        // a failed element may be retried later.
         context.push_element(&reuse_element);
+        let res = Self::instantiate(reuse_element, context);
+        context.pop_element();
+        res
+    }
+}
+
+impl ReuseElement {
+    fn instantiate(
+        mut reuse_element: SvgElement,
+        context: &mut TransformerContext,
+    ) -> Result<(OutputList, Option<BoundingBox>)> {
         let elref = reuse_element
             .get_attr("href")
-            .ok_or_else(|| SvgdxError::MissingAttribute("href".to_owned()))
-            .inspect_err(|_| {
-                context.pop_element();
-            })?;
-        let elref: ElRef = elref.parse().inspect_err(|_| {
-            context.pop_element();
-        })?;
+            .ok_or_else(|| SvgdxError::MissingAttribute("href".to_owned()))?;
+        let elref: ElRef = elref.parse()?;
         // Take a copy of the referenced element as starting point for our new instance
         let mut instance_element = context
             .get_original_element(&elref)
             .cloned()
-            .ok_or_else(|| SvgdxError::ReferenceError(elref.clone()))
-            .inspect_err(|_| {
-                context.pop_element();
-            })?;
+            .ok_or_else(|| SvgdxError::ReferenceError(elref.clone()))?;
         instance_element.expand_compound_size();
-        instance_element.eval_attributes(context).inspect_err(|_| {
-            context.pop_element();
-        })?;
+        instance_element.eval_attributes(context)?;
         let instance_size = instance_element.size(context)?;
 
         // Override 'default' attr values in the target
@@ -113,7 +117,7 @@ impl EventGen for ReuseElement {
         pos.update_shape(&instance_element.name);
         pos.set_position_attrs(&mut instance_element);
 
-        let res = if let (false, Some((start, end))) = (
+        if let (false, Some((start, end))) = (
             instance_element.is_empty_element(),
             instance_element.event_range,
         ) {
@@ -133,8 +137,6 @@ impl EventGen for ReuseElement {
             process_events(new_events, context)
         } else {
             instance_element.generate_events(context)
-        };
-        context.pop_element();
-        res
+        }
     }
 }
